@@ -795,9 +795,18 @@ class CSSStyleSheet(cssutils.stylesheets.StyleSheet):
                 and self.namespaces[rule.prefix] == rule.namespaceURI
             ):
                 # no doublettes
+                oldrules = list(self._cssRules)
                 self._cssRules.insert(index, rule)
                 if _clean:
-                    self._cleanNamespaces()
+                    try:
+                        self._cleanNamespaces()
+                    except xml.dom.DOMException:
+                        # e.g. takes the prefix of a namespace in use
+                        del self._cssRules[:]
+                        for i, r in enumerate(oldrules):
+                            r._parentStyleSheet = self
+                            self._cssRules.insert(i, r)
+                        raise
 
         # @variables
         elif rule.type == rule.VARIABLES_RULE:
